@@ -272,12 +272,15 @@ impl FieldConverter {
     }
 
     if schema.is_freeform_string() {
-      let is_non_string_format = schema.format.as_ref().is_some_and(|f| {
-        matches!(
-          f.as_str(),
-          "date" | "date-time" | "duration" | "time" | "binary" | "byte" | "uuid"
-        )
-      });
+      // length / regex validators exist for `String` members only: a `format` such as `int64` or `double` on a string
+      // schema resolves to a numeric type, so ask the resolved type as well as the format
+      let is_non_string_format = type_ref.base_type != RustPrimitive::String
+        || schema.format.as_ref().is_some_and(|f| {
+          matches!(
+            f.as_str(),
+            "date" | "date-time" | "duration" | "time" | "binary" | "byte" | "uuid"
+          )
+        });
 
       if !is_non_string_format {
         if let Some(length_attr) =
